@@ -314,6 +314,7 @@ theorem runs_sden {s : σ} {L : List (α × Nat)} {t : Term} (h : SDen soft m co
     (∀ gen g prev, SDen soft (runsProto same take cl m) (rcost cost) (RD s none gen g prev false)
       (runsGoS same take none prev L t) t) ∧
     (∀ gen, SDen soft (runsProto same take cl m) (rcost cost) (RS s none gen) (runsStartS same take L t) t) := by
+  have _tie := Skeleton.Tie.stRuns
   induction h with
   | @skip s s' L t hc hs _ ih =>
     obtain ⟨ihc, ihd, ihs⟩ := ih
